@@ -622,6 +622,156 @@ def batches(rng, tier):
     yield Batch("mixed-long-histories", ops, kind="history", note="longer mixed vector/buffer histories; distribution: " + fmt_stats(stats))
 
 
+# ---------------------------------------------------------------------------------------------------------------------
+# API inventory: every public member of the anchored classes and the operation of the harness that reaches it.  A public
+# member (or a header in the two directories) that is not listed here is not observed by the correspondence at all — the
+# run reports that instead of staying silent about it.
+API = {
+    "raw_vector/object_decl.hpp:object": {
+        "iterator begin() noexcept": "ins1/insn/insr/era1/erar/set it, obs",
+        "const_iterator begin() const noexcept": "contents after every op, obs, cmp",
+        "iterator end() noexcept": "obs",
+        "const_iterator end() const noexcept": "contents after every op, obs, cmp",
+        "reference operator[](size_type) noexcept": "set idx, aliased SRC s<i>, obs",
+        "const_reference operator[](size_type) const noexcept": "obs",
+        "reference front() noexcept": "set front, obs",
+        "const_reference front() const noexcept": "obs",
+        "reference back() noexcept": "set back, obs",
+        "const_reference back() const noexcept": "obs",
+        "pointer data() noexcept": "set data, poke after every op, obs",
+        "const_pointer data() const noexcept": "obs, reok",
+        "pointer data_end() noexcept": "poke after every op, obs",
+        "const_pointer data_end() const noexcept": "obs",
+        "object()": "ctor default",
+        "explicit object(A const &)": "ctor adefault",
+        "object(size_type sz, T const &value)": "ctor count",
+        "object(size_type sz, T const &value, A const &)": "ctor acount",
+        "template <typename In> object(In beg, In end)": "ctor range fwd|ptr|fl|bidi|inp",
+        "template <typename In> object(In beg, In end, A const &)": "ctor arange",
+        "explicit object(fcppt::container::raw_vector::rep<A> const &) noexcept": "ctor buf (to_raw_vector)",
+        "object(std::initializer_list<value_type>)": "ctor il",
+        "object(std::initializer_list<value_type>, A const &)": "ctor ail",
+        "object(object &&) noexcept": "ctor move",
+        "~object() noexcept": "end, every ctor",
+        "object &operator=(object &&) noexcept": "massign (also r = r)",
+        "void push_back(T const &)": "push (lvalue element / prvalue)",
+        "void pop_back() noexcept": "pop",
+        "void clear() noexcept": "clear",
+        "size_type size() const noexcept": "every op",
+        "bool empty() const noexcept": "obs",
+        "size_type capacity() const noexcept": "every op (capok, reok, cpok, geo)",
+        "void swap(object &) noexcept": "swap r s with r >= s",
+        "void resize(size_type sz, T const &value)": "resize",
+        "void reserve(size_type sz)": "reserve",
+        "allocator_type get_allocator() const": "obs",
+        "iterator insert(iterator position, T const &t)": "ins1",
+        "void insert(iterator position, size_type sz, T const &value)": "insn",
+        "template <typename In> void insert(iterator position, In beg, In end)": "insr (5 iterator kinds, own range)",
+        "iterator erase(iterator position) noexcept": "era1",
+        "iterator erase(iterator first, iterator last) noexcept": "erar",
+        "void shrink_to_fit()": "shrink",
+    },
+    "raw_vector/rep_decl.hpp:rep": {
+        "rep(A const &, pointer first, pointer last, pointer cap) noexcept": "ctor buf (buffer::release)",
+        "A const &alloc() const noexcept": "ctor buf", "pointer first() const noexcept": "ctor buf",
+        "pointer last() const noexcept": "ctor buf", "pointer cap() const noexcept": "ctor buf",
+    },
+    "buffer/object_decl.hpp:object": {
+        "explicit object(size_type write_sz)": "bctor", "object(size_type write_sz, A)": "bactor",
+        "object(object &&) noexcept": "bmovector, bappend, bappendopt", "object &operator=(object &&) noexcept": "bmassign (also b = b), bappend",
+        "~object() noexcept": "end, bctor, bread", "const_iterator begin() const noexcept": "contents after every op, bobs",
+        "const_iterator end() const noexcept": "contents after every op, bobs",
+        "const_reference operator[](size_type) const noexcept": "bobs",
+        "const_pointer read_data() const noexcept": "bobs, mv", "const_pointer read_data_end() const noexcept": "capok after every op, bobs",
+        "pointer write_data() noexcept": "bfill, poke after every op", "pointer write_data_end() noexcept": "poke after every op, capok",
+        "size_type read_size() const noexcept": "every op", "size_type write_size() const noexcept": "every op",
+        "void written(size_type sz) noexcept": "bfill, bappend, bappendopt, bread, breadopt",
+        "void resize_write_area(size_type sz)": "bresize, bappend, bappendopt, bread, breadopt",
+        "allocator_type get_allocator() const": "bobs, ctor buf", "void swap(object &) noexcept": "bswap b c with b >= c, bmassign",
+        "fcppt::container::raw_vector::rep<A> release() noexcept": "ctor buf",
+    },
+    "dynamic_array_decl.hpp:dynamic_array": {
+        "explicit dynamic_array(size_type)": "dynarr (even n)", "dynamic_array(size_type, A)": "dynarr (odd n)",
+        "~dynamic_array() noexcept": "dynarr", "pointer data() noexcept": "dynarr", "const_pointer data() const noexcept": "dynarr",
+        "pointer data_end() noexcept": "dynarr", "const_pointer data_end() const noexcept": "dynarr", "size_type size() const noexcept": "dynarr",
+    },
+}
+# headers of the two directories: free functions / operators and the op that reaches them
+HEADERS = {
+    "raw_vector": {"comparison.hpp": "cmp (== != < > <= >=)", "object.hpp": "-", "object_decl.hpp": "-", "object_fwd.hpp": "-",
+                   "object_impl.hpp": "swap r s with r < s (free swap)", "rep_decl.hpp": "-", "rep_fwd.hpp": "-", "rep_impl.hpp": "-"},
+    "buffer": {"append_from.hpp": "bappend", "append_from_opt.hpp": "bappendopt", "object.hpp": "-", "object_decl.hpp": "-",
+               "object_fwd.hpp": "-", "object_impl.hpp": "bswap b c with b < c (free swap)", "read_from.hpp": "bread",
+               "read_from_opt.hpp": "breadopt, readchars", "to_raw_vector.hpp": "ctor buf, readchars"},
+}
+
+
+def public_decls(path, cls):
+    """normalised declarations in the public sections of `class cls` (comments, nested classes and bodies removed)"""
+    import re
+    s = open(path).read()
+    s = re.sub(r"/\*.*?\*/", "", s, flags=re.S)
+    s = re.sub(r"//[^\n]*", "", s)
+    i = s.index("{", s.index("class " + cls))
+    depth, j = 0, i
+    while True:
+        if s[j] == "{":
+            depth += 1
+        elif s[j] == "}":
+            depth -= 1
+            if depth == 0:
+                break
+        j += 1
+    out, depth = [], 0
+    for ch in s[i + 1:j]:
+        if ch == "{":
+            depth += 1
+        elif ch == "}":
+            depth -= 1
+        elif depth == 0:
+            out.append(ch)
+    pub, access = [], "private"
+    for part in re.split(r"\b(public|private|protected)\s*:", "".join(out)):
+        if part in ("public", "private", "protected"):
+            access = part
+        elif access == "public":
+            pub.append(part)
+    decls = []
+    for st in ";".join(pub).split(";"):
+        st = " ".join(st.replace("[[nodiscard]]", "").split())
+        if "(" in st and not st.startswith(("static_assert", "FCPPT_", "using ")):
+            decls.append(st)
+    return decls
+
+
+def extra_checks(binp, rng, tier, ev):
+    """API inventory against the current tree (see API above)"""
+    import os
+    from vlib import paths
+    base = os.path.join(paths.REPO, "libs", "core", "include", "fcppt", "container")
+    unknown, seen = [], 0
+    for key, known in API.items():
+        rel, cls = key.split(":")
+        try:
+            decls = public_decls(os.path.join(base, rel), cls)
+        except (OSError, ValueError) as e:
+            unknown.append(f"{rel}: cannot be read ({e})")
+            continue
+        seen += len(decls)
+        unknown += [f"{rel}: `{d}`" for d in decls if d not in known]
+    for d, known in HEADERS.items():
+        try:
+            unknown += [f"{d}/{f}" for f in sorted(os.listdir(os.path.join(base, d))) if f not in known]
+        except OSError as e:
+            unknown.append(f"{d}: cannot be listed ({e})")
+    ev.setdefault("coverage", {})["api_inventory"] = {"public_members": seen, "not_harnessed": unknown}
+    if not unknown:
+        return []
+    return [{"kind": "broken-correspondence",
+             "what": "public API of the anchored classes that no operation of the harness reaches (add it to harness, driver, "
+                     "model and props/c07.py:API): " + "; ".join(unknown)}]
+
+
 MANIFEST = {
     "level_text": ("Machine-checked proof (Lean 4) over an executable two-layer model of raw_vector and buffer (bounds- and "
                    "initialisation-checked heap with an allocation ledger; pointer triples; every member mirrored path by path, "
